@@ -152,6 +152,15 @@ func (Scenario) Run(c choice.Chooser, opt sim.Options) sim.Result {
 		return res
 	}
 
+	// the reference must be a function of the bytes: a decoder whose result
+	// differs between two plain reads of the same file cannot be judged
+	if again := guardedDecode(f.Format, bytes.NewReader(f.Bytes)); again.kind != "ok" || meshsnap.DiffContent(ref.snap, again.snap) != "" {
+		res.Count("discard:decoder-nondeterministic:"+fname, 1)
+		res.Evals = 1
+		res.Sig = "decoder-nondeterministic"
+		return res
+	}
+
 	// swarm knobs of this run
 	schedBase := c.Intn("run:schedbase", 1<<30)
 	perCut := 1 + c.Intn("run:percut", 2)
@@ -160,8 +169,7 @@ func (Scenario) Run(c choice.Chooser, opt sim.Options) sim.Result {
 	}
 	diskEvery := 1 + c.Intn("run:diskevery", 8)
 
-	// fault-free control: the complete file under every chunking must
-	// decode to the reference; else the file is discarded (codec matter).
+	// fault-free control: the complete file under every chunking.
 	for k := 0; k < simio.ChunkKinds; k++ {
 		for _, end := range []int{simio.EndEOF, simio.EndEOFWithData} {
 			sch := simio.Schedule{Chunk: k, End: end, EmptyRead: k == simio.ChunkRandom}
@@ -175,9 +183,14 @@ func (Scenario) Run(c choice.Chooser, opt sim.Options) sim.Result {
 				return res
 			}
 			if o.kind != "ok" || meshsnap.DiffContent(ref.snap, o.snap) != "" {
-				res.Count("discard:control-mismatch:"+fname, 1)
-				res.Sig = "control-mismatch"
-				return res
+				// A decoder that reads the COMPLETE file differently when it
+				// arrives in pieces has a codec defect, which is not C14's
+				// business and is only counted. The file's prefixes are
+				// still judged (wave h, C14-h3: discarding the file here hid
+				// a reader that fabricates a record from every short read):
+				// an accepted strict prefix must equal the reference decode,
+				// whatever the reason it does not.
+				res.Count("probe:complete-file-decodes-differently-in-pieces:"+fname, 1)
 			}
 		}
 	}
